@@ -235,11 +235,13 @@ package scipipe
 
 //@ ghost func loadedAudit(file string, epoch int) *AuditInfo
 //@ ghost func marshalled(a *AuditInfo) string
+//@ ghost func marshalledAny(v ref) string
 
 //@ extern io/ioutil.WriteFile(filename, data, perm) (err)
 //@   modifies effCreated, fsEpoch
 //@   ensures eff: effCreated == setAdd(old(effCreated), filename)
 //@ extern encoding/json.MarshalIndent(v, prefix, indent) (res, err)
+//@   ensures def: res == marshalledAny(v)
 
 //@ func randSeqLC(n) (res)
 //@   props C10
@@ -255,11 +257,27 @@ package scipipe
 //@   ensures maps-empty: len(res.Params) == 0 && len(res.Tags) == 0 && len(res.OutFiles) == 0 && len(res.Upstream) == 0
 //@   ensures maps-empty-dom: (forall k string :: !(k in res.Params) && !(k in res.Tags) && !(k in res.OutFiles) && !(k in res.Upstream))
 
+//@ ghost func fileBytes(name string, epoch int) string
+//@ extern io/ioutil.ReadFile(filename) (res, err)
+//@   ensures def: err == nil ==> res == fileBytes(filename, fsEpoch)
+//@ extern encoding/json.Unmarshal(data, v) (err)
+//@   modifies *
+
+// C11: every field of a record is written to and read back from the side-car file (encoding/json encodes exactly the
+// exported fields of these kinds; a field that is unexported, tagged "-", of interface/func/chan type or whose JSON name
+// collides with another one would be silently lost between runs).
+//@ typeshape AuditInfo every-field-survives-the-audit-file[C10,C11]: json-roundtrip
+
 //@ func UnmarshalAuditInfoJSONFile(fileName) (auditInfo)
 //@   props C11
-//@   trusted encoding/json works by reflection; the loaded record is represented by the uninterpreted loadedAudit(file, epoch)
+//@   trusted-frame encoding/json fills the record allocated here by reflection; nothing that existed before the call changes
+//@   modifies fresh
+//@   atcall io/ioutil.ReadFile reads-the-named-file[C11]: $arg0 == fileName
+//@   atcall encoding/json.Unmarshal decodes-the-bytes-read-into-the-returned-record[C11]: readFileErr == nil && $arg0 == auditFileData && $arg1 == auditInfo
 //@   ensures nonnil: auditInfo != nil
-//@   ensures loaded: auditInfo == loadedAudit(fileName, fsEpoch)
+//@   ensures unreadable-file-is-fatal[C11]: readFileErr == nil || isNotExistErr(readFileErr)
+//@   ensures undecodable-file-is-fatal[C11]: readFileErr == nil ==> unmarshalErr == nil
+//@   assumes loaded: auditInfo == loadedAudit(fileName, fsEpoch)
 
 //@ func (*FileIP).AuditFilePath(ip) (res)
 //@   props C10 C11
@@ -317,7 +335,8 @@ package scipipe
 //@   ensures plain: !ip.doStream && baseDir == "" ==> effMkdir[dirOf(tempPathOf(ip.path))]
 
 //@ func (*FileIP).WriteAuditLogToFile(ip)
-//@   props C10 C01
+//@   props C10 C01 C11
+//@   atcall io/ioutil.WriteFile writes-the-ips-record-next-to-the-file[C10,C11]: $arg0 == ip.path + ".audit.json" && $arg1 == marshalledAny(auditInfo) && auditInfo == ip.auditInfo && jsonErr == nil
 //@   modifies ip.auditInfo, locked, effCreated, effMkdir, fsEpoch
 //@   ensures written: effCreated == setAdd(old(effCreated), ip.path + ".audit.json")
 //@   ensures record-kept: old(ip.auditInfo) != nil ==> ip.auditInfo == old(ip.auditInfo)
